@@ -36,23 +36,40 @@ fn gen_wide(r: &mut Rng) -> Ledger {
 
 pub fn run(ctx: &mut Ctx) {
     let prop = "C16";
-    ctx.ev.rule = "wide ledgers (6–13 securities, half of them with tickers that are prefixes of one another, about half fully sold, 2–5 shared disposal dates spread over several tax years, shuffled lines) and the standard generated ledgers: (a) calculate() run 4 times in-process (each HashMap draws a fresh seed) must give equal reports; tax years ascending, disposals by (date, ticker), holdings by ticker; (a′) the same for the single-year report of each of up to two years with ≥ 2 disposals; (b) the real binary run 3 times as separate processes for `report --format plain`, `report --format json`, `report --year Y --format json` and `parse` must give byte-identical stdout; echoed transactions in the text report by (date, ticker); whole report compared with the Lean model (which has no hash maps). Non-trivial = ledgers with ≥ 6 securities and ≥ 2 fully sold; distinct by ledger text.".into();
+    ctx.ev.rule = "wide ledgers (6–13 securities, half of them with tickers that are prefixes of one another, about half fully sold, 2–5 shared disposal dates spread over several tax years, shuffled lines) the standard generated ledgers, and order-sensitive-sum ledgers (one disposal identified with 3–6 later purchases of very different sizes behind a SPLIT whose ratio divides none of them, a second disposal of exactly the rest of the holding): (a) calculate() run 4 times (8 for the sum shape) in-process (each HashMap draws a fresh seed) must give equal reports, and a refused ledger the same refusal text 6 times; tax years ascending, disposals by (date, ticker), holdings by ticker; (a′) the same for the single-year report of each of up to two years with ≥ 2 disposals; (b) the real binary run 3 times as separate processes for `report --format plain`, `report --format json`, `report --year Y --format json` and `parse` must give byte-identical stdout; echoed transactions in the text report by (date, ticker); whole report compared with the Lean model (which has no hash maps; not for the sum shape, whose 28-digit rounding exact rationals do not reproduce). Non-trivial = ledgers with ≥ 6 securities and ≥ 2 fully sold; distinct by ledger text.".into();
     let ex = run_impl::wide_exemptions();
     let mut r = Rng::new(ctx.seed ^ 0xC16);
     let cfg = GenCfg::standard();
     let mut cases: Vec<(String, Ledger)> = Vec::new();
     for i in 0..ctx.n(40, 2000) { cases.push((format!("wide#{i}"), gen_wide(&mut r))); }
+    for i in 0..ctx.n(24, 1200) { cases.push((format!("claimsum#{i}"), ledger::gen_claim_sum(&mut r))); }
     cases.extend(matcher_cases(prop, ctx, &cfg, ctx.n(100, 5000)));
     let have_cli = cli::available();
     let mut cli_budget: i64 = if ctx.tier == Tier::Quick { 12 } else { 300 };
     for (name, l) in cases {
         ctx.ev.evaluations += 1;
+        // the sum shape divides by ratios with non-terminating reciprocals: the implementation rounds to 28
+        // digits where the model's rationals do not, so it is compared run against run only
+        let exact = !name.starts_with("claimsum");
         let first = run_impl::impl_calc_raw(&l, None, &ex);
-        let Ok(Ok(rep)) = &first else { ctx.ev.count("rejected"); continue };
+        let Ok(Ok(rep)) = &first else {
+            ctx.ev.count("rejected");
+            // a refusal is output too: the same refusal, word for word, on every run
+            let show = |o: &Result<Result<cgt_core::TaxReport, cgt_core::CgtError>, String>| match o { Ok(Ok(_)) => "accepted".to_string(), Ok(Err(e)) => e.to_string(), Err(p) => format!("panic: {p}") };
+            let a = show(&first);
+            for k in 0..5 {
+                let b = show(&run_impl::impl_calc_raw(&l, None, &ex));
+                if a != b {
+                    ctx.ev.violation("oracle", format!("run {} of calculate() on the same input ends differently: first `{}`, then `{}`", k + 2, a.lines().next().unwrap_or(""), b.lines().next().unwrap_or("")), replay_text(prop, "oracle", "non-deterministic refusal", &l, &[format!("case {name}")]));
+                    break;
+                }
+            }
+            continue
+        };
         ctx.ev.count("accepted");
         let sold_out = rep.holdings.iter().filter(|h| h.quantity.is_zero()).count();
         if rep.holdings.len() >= 6 && sold_out >= 2 { ctx.ev.nontrivial.insert(ledger::dsl(&l)); }
-        for k in 0..3 {
+        for k in 0..(if name.starts_with("claimsum") { 7 } else { 3 }) {
             match run_impl::impl_calc_raw(&l, None, &ex) {
                 Ok(Ok(again)) => if again != *rep {
                     ctx.ev.violation("oracle", format!("run {} of calculate() on the same input gives a different report", k + 2), replay_text(prop, "oracle", "non-deterministic report", &l, &[format!("case {name}")]));
@@ -84,7 +101,7 @@ pub fn run(ctx: &mut Ctx) {
             for _ in 0..2 {
                 if let Ok(Ok(again)) = run_impl::impl_calc_raw(&l, Some(yy), &ex) { if again != *one { ctx.ev.violation("oracle", format!("two runs of the report for {yy} differ"), replay_text(prop, "oracle", "non-deterministic single-year report", &l, &[format!("case {name}"), format!("year {yy}")])); break; } }
             }
-            if let Some(m) = ctx.model.as_mut() {
+            if let Some(m) = ctx.model.as_mut().filter(|_| exact) {
                 if let Ok(mo) = run_impl::model_calc(m, &l, Some(yy), &ex) {
                     ctx.ev.traces_validated += 1;
                     let mut p = crate::rep::Proj::full();
@@ -121,7 +138,7 @@ pub fn run(ctx: &mut Ctx) {
                 }
             }
         }
-        if let Some(m) = ctx.model.as_mut() {
+        if let Some(m) = ctx.model.as_mut().filter(|_| exact) {
             if let Ok(mo) = run_impl::model_calc(m, &l, None, &ex) {
                 ctx.ev.traces_validated += 1;
                 let mut p = crate::rep::Proj::full();
